@@ -500,6 +500,8 @@ def life_after_crash(rep, tier, rng, prop, h, meta, lines, tags, root, compare_m
         pri = [c for c in cuts if c[1] > 0] + [c for c in cuts if c[1] == 0 and c[0] < ncalls and calls[c[0]][0] in "uc"]
         # between two creations of one merge output pair (data / hint), and right before the first unlink
         pairs = [c for c in cuts if c[1] == 0 and 0 < c[0] < ncalls and calls[c[0]][0] == "c" and calls[c[0] - 1][0] == "c" and calls[c[0]][3:] == calls[c[0] - 1][3:]]
+        # ... and right after the pair is complete, with both files of the output still empty
+        pairs += [c for c in cuts if c[1] == 0 and 1 < c[0] <= ncalls and calls[c[0] - 1].startswith("c:h")]
         if not pri:
             return []
         (i, b) = rng.choice(pairs) if pairs and rng.random() < 0.5 else rng.choice(pri)
@@ -554,6 +556,7 @@ def run_cut_property(rep, tier, seed, prop, loss):
     n = (40 if tier == "quick" else 400)
     root = os.path.join(WORK, "run-" + prop)
     nv = 0
+    nvk = {}
     known = set()
     corpus = []
     if prop == "C03":
@@ -606,21 +609,26 @@ def run_cut_property(rep, tier, seed, prop, loss):
             pair.close()
         # lives after the crash: also for power loss (the image in which nothing unsynced happened to be lost is one of the
         # images a power failure can leave)
-        if not any(p[6] is None for p in probs):
-            for _ in range((2 if tier == "quick" else 6) if not broken else 12):
-                probs += life_after_crash(rep, tier, rng, prop, h, meta, lines, tags, root, compare_model=not broken)
+        # (when the model no longer describes what the real code recovers, the lives still run, with the direct oracle alone: the
+        #  search for an input on which the property itself fails)
+        if not any(p[0] == "oracle" and p[6] is None for p in probs):
+            differs = broken or any(p[0] == "correspondence" for p in probs)
+            for _ in range((2 if tier == "quick" else 6) if not differs else 12):
+                probs += life_after_crash(rep, tier, rng, prop, h, meta, lines, tags, root, compare_model=not differs)
                 if any(p[0] == "oracle" and p[6] is None for p in probs):
                     break
         if broken:
             probs = [p for p in probs if p[0] == "oracle" and p[6] is None][:1]
+        # failing inputs first
+        probs.sort(key=lambda p: 0 if p[0] == "oracle" else 1)
         for p in probs:
             if p[6] is not None:
                 if p[6] not in known:
                     known.add(p[6])
                     rep.violation("oracle", dict(what=p[1], script=p[2][:len(lines)] + p[2][len(lines):][-24:], failing_request=p[2][p[3]] if p[3] < len(p[2]) else None, expected=p[4][:600], observed=p[5][:600]), signature=p[6])
             else:
-                nv += 1
-                if nv <= 3:
+                nvk[p[0]] = nvk.get(p[0], 0) + 1
+                if nvk[p[0]] <= (3 if p[0] == "oracle" else 2):
                     rep.violation(p[0], dict(what=p[1], script=p[2][:len(lines)] + p[2][len(lines):][-24:], failing_request=p[2][p[3]] if p[3] < len(p[2]) else None, expected=p[4][:1200], observed=p[5][:1200]))
         if idx < 2:
             rep.sample({"workload": lines, "trace": [x[:160] for x in impl]})
